@@ -418,6 +418,9 @@ func describeExpr(f *FuncInfo, e ast.Expr, depth int) string {
 			return "conv:" + types.TypeString(tv.Type, func(p *types.Package) string { return p.Name() }) + "(" + describeExpr(f, x.Args[0], depth) + ")"
 		}
 		id := calleeID(info, x)
+		if describeCanonical && (id == "fmt.Errorf" || id == "errors.New" || strings.HasSuffix(id, "/errors.New")) {
+			return "ERR" // a freshly built error: its text is not part of any contract
+		}
 		args := []string{}
 		for _, a := range x.Args {
 			args = append(args, describeExpr(f, a, depth))
@@ -439,7 +442,25 @@ func describeExpr(f *FuncInfo, e ast.Expr, depth int) string {
 	case *ast.UnaryExpr:
 		return x.Op.String() + describeExpr(f, x.X, depth)
 	case *ast.BinaryExpr:
-		return "(" + describeExpr(f, x.X, depth) + x.Op.String() + describeExpr(f, x.Y, depth) + ")"
+		l, r := describeExpr(f, x.X, depth), describeExpr(f, x.Y, depth)
+		op := x.Op
+		if describeCanonical {
+			// operands of commutative operators in lexical order; > and >= turned into < and <=
+			switch op {
+			case token.EQL, token.NEQ, token.LAND, token.LOR, token.ADD, token.MUL, token.AND, token.OR, token.XOR:
+				if isStringTyped(info, x.X) && op == token.ADD {
+					break // string concatenation is not commutative
+				}
+				if r < l {
+					l, r = r, l
+				}
+			case token.GTR:
+				l, r, op = r, l, token.LSS
+			case token.GEQ:
+				l, r, op = r, l, token.LEQ
+			}
+		}
+		return "(" + l + op.String() + r + ")"
 	case *ast.IndexExpr:
 		return describeExpr(f, x.X, depth) + "[" + describeExpr(f, x.Index, depth) + "]"
 	case *ast.SliceExpr:
@@ -456,8 +477,21 @@ func describeExpr(f *FuncInfo, e ast.Expr, depth int) string {
 	case *ast.FuncLit:
 		return "funclit"
 	}
+	if describeTypes {
+		if tv, ok := info.Types[e]; ok && tv.IsType() {
+			return "type:" + types.TypeString(tv.Type, func(p *types.Package) string { return p.Name() })
+		}
+	}
 	return "expr"
 }
+
+// describeTypes makes describeExpr render type arguments (make(chan T), new(T)) instead of the opaque "expr"; set by
+// the guarded-actions engine only (older rules match the opaque form).
+var describeTypes bool
+
+// describeCanonical makes describeExpr order the operands of commutative operators and normalise > / >= (set by the
+// guarded-actions engine only).
+var describeCanonical bool
 
 // describeUsePos, when valid, makes describeExpr resolve a local variable with several definitions to the last
 // definition textually before that position (see describeExprAt).
